@@ -19,3 +19,28 @@ add("C29", "exploration", "vh",
     "exhaustive (tree, limit) enumeration of both limited serializers",
     "Every tree of two small-scope tree spaces (one back-reference rich) with EVERY limit 0..=len+1 through node_to_bytes_limit and node_to_bytes_backrefs_limit; below the length the error must be exactly OutOfMemory, whatever token is being written, at/above it the unlimited bytes.",
     "Differential against the unlimited serializers of the same crate (whose correctness is C15/C17's subject).")
+
+add("C17", "exploration", "vh",
+    "exhaustive small-scope tree enumeration with sharing; salt enumeration through hook H3",
+    "Every tree of two small-alphabet tree spaces (repeated sub-trees at every depth) in fresh and hash-consed form, list families whose paths cross 8/16 bits and doubling trees: node_to_bytes_backrefs output must decode (new, legacy, reference decoder) to the tree, be canonical, be no longer than classic, be identical across two runs and across the enumerated hash-salt classes, and re-serialize to itself.",
+    "Trusts the reference back-reference decoder (refserde.rs). Salt classes enumerated: 0, !0, a constant, low-bit and high-bit patterns (bucket index and control byte of the table); not all 2^64 salts.")
+
+add("C18", "model_checking", "vh",
+    "exhaustive byte-string and token-sequence enumeration, two decoders and the length probe against a reference decoder",
+    "All short byte strings, all strings up to 6|8 bytes over a 12-byte marker/path alphabet and every well-formed token tree up to 4|5 leaves whose leaves are atoms or back-references with every path 0..31 and leading-zero / 0x80 / empty / 2-byte / non-canonical paths: new and legacy decoder and serialized_length_from_bytes must agree with an independent decoder written from docs/compressed-serialization.md on acceptance, tree, pair_count and consumed length.",
+    "Trusts refserde.rs; the decoder cursor is not exposed, consumed length is checked as shortest accepted prefix and through the length probe.")
+
+add("C20", "model_checking", "vh",
+    "exhaustive tree, byte-string and token-sequence enumeration against a reference 2026 decoder",
+    "Trees x levels round-trip strict and lenient with the length probe; every short raw body and every token-level blob (atom-table configurations x instruction sequences x declared counts x single overlong-varint deviations) under strict x max_atom_len is decoded by both entry points and the probe and compared with a reference decoder written from docs/serde-2026.md; classic and back-reference decoders must reject everything that carries the magic prefix.",
+    "Trusts refserde.rs. max_atom_len = usize::MAX (caller-selected unbounded pre-allocation) is not part of the quick tier.")
+
+add("C22", "model_checking", "vh+pyleg",
+    "exhaustive small-scope tree enumeration, eight hash implementations against an independent SHA-256",
+    "Every tree of three tree spaces (A6, all integers 0..40 hitting the precomputed table, A24) in sharing modes x atom representations: op_sha256_tree and tree_hash_costed (both cost models), ObjectCache treehash, InternedTree::tree_hash, tree_hash_from_stream and parse_triples hashes are compared with the recursive definition computed by a from-scratch SHA-256; the wheel's sha256_treehash is compared in the python leg.",
+    "Trusts refsha.rs (round constants derived from primes, self-tested against FIPS vectors).")
+
+add("C24", "exploration", "vh",
+    "exhaustive small-scope tree enumeration with sharing and mixed atom representations",
+    "Every tree of three tree spaces in 3 sharing modes x 3 atom representations is interned; serialization and hash must be preserved, atoms pairwise byte-distinct and exactly the set of distinct atom values, pairs pairwise distinct and exactly the set of distinct sub-trees, counts <= source; intern_tree_limited is run with every heap limit 0..=need+1.",
+    "The model (sets of canonical serializations) is computed on the pure tree; larger trees than the scopes are not covered.")
